@@ -358,6 +358,45 @@ _HINTS = {}
 _FOUND = {}
 
 
+_EARLY = {}
+
+
+def _early_touch(holder):
+    """Every other holder class is first used while the names its forward references need are NOT yet bound in its module
+    (what happens when a class is touched while circularly dependent packages are still being imported: the imports
+    sit at the bottom of the module).  That first use may fail; once the names are bound the class must resolve as if
+    nothing had happened.  Returns a short note for the evidence."""
+    import types
+    import zlib
+    if holder in _EARLY:
+        return None
+    _EARLY[holder] = True
+    if holder in _HINTS or zlib.crc32(("%s.%s" % (holder.__module__, holder.__qualname__)).encode()) % 2:
+        return None
+    if "_betterproto_meta" in vars(holder):
+        return None                        # already used (metadata built): no longer a first use
+    mod = sys.modules.get(holder.__module__)
+    if mod is None:
+        return None
+    hidden = {}
+    for k, v in list(vars(mod).items()):
+        foreign_mod = isinstance(v, types.ModuleType) and (v.__name__.startswith(("genroot", "betterproto.lib")))
+        foreign_cls = isinstance(v, type) and getattr(v, "__module__", "").startswith("genroot") and v.__module__ != mod.__name__
+        if foreign_mod or foreign_cls:
+            hidden[k] = v
+            del mod.__dict__[k]
+    note = "hid %d names" % len(hidden)
+    try:
+        try:
+            holder()
+            note += "; first use succeeded"
+        except Exception as e:
+            note += "; first use raised %s" % type(e).__name__
+    finally:
+        mod.__dict__.update(hidden)
+    return note
+
+
 def do_refs(results):
     """spec['refs']: list of {key, src_module, holder, number, site, dst_module, dst_flat, dst_kind}
     checks identity of the resolved class with the class the target module exposes."""
@@ -372,6 +411,9 @@ def do_refs(results):
                 target = find_class(r["dst_module"], r["dst_flat"])
             res["target"] = "%s.%s" % (target.__module__, target.__qualname__)
             holder = find_class(r["src_module"], r["holder"], ("message",))
+            early = _early_touch(holder)
+            if early:
+                res["early_touch"] = early
             bp = holder._betterproto
             name = bp.field_name_by_number[r["number"]]
             meta = bp.meta_by_field_name[name]
@@ -619,6 +661,9 @@ def do_grpc(results):
         async def guarded(coro):
             return await asyncio.wait_for(coro, 15)
 
+        async def _consume(fn, arg):
+            return [r async for r in fn(arg)]
+
         # ---- normal calls, error propagation, precedence
         try:
             async with ChannelFor([Impl()]) as channel:
@@ -699,6 +744,57 @@ def do_grpc(results):
                                 "received %d of %d before error" % (len(got), ea), cardinality=me["card"])
                     except Exception as e:
                         add(sname, me["name"], "grpc-error-propagates", False, short_exc(e), cardinality=me["card"])
+
+                # ---- a stream-stream call that the caller abandons (cancelled while waiting for a response) must let go
+                # of its request source: a second call fed from the SAME source reaches its handler with every request
+                for me, sname_py, bname_py, tin, tout in plans:
+                    if not (me["cs"] and me["ss"]):
+                        continue
+                    try:
+                        from betterproto.grpc.util.async_channel import AsyncChannel
+                        pool_reqs = []
+                        for call in me["calls"]:
+                            for r in call["requests"]:
+                                try:
+                                    m = build(tin, r)
+                                except Exception:
+                                    continue
+                                if rt_ok(m):
+                                    pool_reqs.append(m)
+                        while len(pool_reqs) < 4:
+                            pool_reqs.append(tin())
+                        first, rest = pool_reqs[0], pool_reqs[1:4]
+                        behaviour[bname_py] = {"responses": [tout()]}
+                        src = AsyncChannel()
+                        fn = getattr(stub, sname_py)
+
+                        async def abandoned():
+                            async for _ in fn(src):
+                                pass
+                        await src.send(first)
+                        try:
+                            await asyncio.wait_for(abandoned(), 0.3)      # the handler waits for the end of the requests: never comes
+                            add(sname, me["name"], "abandoned-call-setup", True, "first call ended by itself", cardinality=me["card"], skipped=True)
+                            continue
+                        except asyncio.TimeoutError:
+                            pass
+                        await asyncio.sleep(0.05)
+                        calls.clear()
+
+                        async def feed():
+                            for r in rest:
+                                await src.send(r)
+                            src.close()
+                        feeder = asyncio.ensure_future(feed())
+                        got = await guarded(_consume(fn, src))
+                        await feeder
+                        mine = [c for c in calls if c[0] == bname_py]
+                        ok = len(mine) == 1 and mine[0][1] == [bytes(r) for r in rest]
+                        add(sname, me["name"], "second-call-after-abandoned-call-gets-every-request", ok,
+                            "sent %s, handler calls received %s" % ([bytes(r).hex() for r in rest], [[x.hex() for x in c[1]] for c in mine]),
+                            cardinality=me["card"])
+                    except Exception as e:
+                        add(sname, me["name"], "second-call-after-abandoned-call-gets-every-request", False, short_exc(e), cardinality=me["card"])
 
                 # ---- precedence of per-call timeout / deadline / metadata
                 if plans:
@@ -915,6 +1011,17 @@ def do_bundled(results):
 # ------------------------------------------------------------------ main
 def main():
     results = {"modules": {}}
+    if mode == "refs":
+        # before anything else uses the classes (see _early_touch)
+        notes = {}
+        for r in spec.get("refs", []):
+            try:
+                n = _early_touch(_find_class(r["src_module"], r["holder"], ("message",)))
+            except Exception as e:
+                n = "setup: " + short_exc(e)
+            if n:
+                notes[n.split("; ")[-1]] = notes.get(n.split("; ")[-1], 0) + 1
+        results["early_touches"] = notes
     for modname in spec.get("modules", []):
         results["modules"][modname] = dump_module(modname)
     for extra in spec.get("extra_modules", []):
